@@ -125,7 +125,9 @@ theorem mem_pjoin {a b : List Nat} {x : Nat} : x ∈ pjoin a b ↔ x ∈ a ∨ x
 /-- number the sub-sends of one operation with fresh event ids -/
 def mkSubs (e : Nat) : Op → List Sub
   | [] => []
-  | (d, p, q) :: r => { dst := d, eid := e, payload := p, query := q, st := .toPush } :: mkSubs (e + 1) r
+  | (d, p, q) :: r =>
+    -- a requestor port cannot be connected to an event sink: a "query to a sink" is an event
+    { dst := d, eid := e, payload := p, query := (match d with | .sink _ => false | _ => q), st := .toPush } :: mkSubs (e + 1) r
 
 inductive Label
   | init (m : Nat)                      -- model m's task starts with its init script
@@ -143,9 +145,13 @@ def setSt (l : List Sub) (i : Nat) (st : SubSt) : List Sub :=
   | s :: r, 0 => { s with st := st } :: r
   | s :: r, i + 1 => s :: setSt r i st
 
+/-- event ids of the sub-sends that went to a mailbox (sink writes and failed sends are not arrivals) -/
+def boxEids (l : List Sub) : List Nat :=
+  l.filterMap fun s => match s.dst with | .box _ => some s.eid | _ => none
+
 /-- mark as replied the query sub-send with event id `e` -/
 def markReplied (l : List Sub) (e : Nat) (v : Nat) : List Sub :=
-  l.map (fun s => if s.eid = e then { s with st := .replied, reply := v } else s)
+  l.map (fun s => if s.eid = e ∧ s.st = .pushed then { s with st := .replied, reply := v } else s)
 
 def step (P : Prog) (l : Label) (s : St) : Option St :=
   if s.fault.isSome then none else
@@ -213,7 +219,7 @@ def step (P : Prog) (l : Label) (s : St) : Option St :=
   | .opDone t =>
     let tk := s.task t
     if tk.phase = .busy ∧ tk.cur ≠ [] ∧ tk.cur.all Sub.done then
-      some { s with task := upd s.task t { tk with cur := [], past := pjoin (tk.cur.map (·.eid)) tk.past },
+      some { s with task := upd s.task t { tk with cur := [], past := pjoin (boxEids tk.cur) tk.past },
                     replies := if tk.cur.any (·.query) then
                                  s.replies ++ [(t, tk.handling, (tk.cur.filter (·.query)).map (·.reply))]
                                else s.replies }
